@@ -156,7 +156,8 @@ Definition spell (gb pq nl : bool) (pattern : list nat) : list nat :=
 (* ext: posix-extended; cls: the syntax has character classes (all but emacs); nl: a newline is alternation (grep);
    gb: grep's brace; pq: posix-basic's "\+" and "\?" *)
 (* what is compiled first (to report errors against the pattern as given) and what inside_group starts from *)
-Definition spelled (cls nl gb pq : bool) (pattern : list nat) : list nat := spell gb pq nl (collp cls CT pattern).
+(* (the operators first: they are found by reading the bracket expressions as they were written) *)
+Definition spelled (cls nl gb pq : bool) (pattern : list nat) : list nat := collp cls CT (spell gb pq nl pattern).
 Definition inside_group (ext cls nl gb pq : bool) (pattern : list nat) : list nat :=
   wrap ext cls nl (WT false) 0 (spelled cls nl gb pq pattern).
 
